@@ -276,6 +276,12 @@ func (rv *PostingsList) read(postingsOffset uint64, d *Dictionary) error {
 		return rv.init1Hit(postingsOffset)
 	}
 
+	// "general" encoding: a reused list (e.g. the scratch list of a
+	// DictionaryIterator) must not keep the marker of an earlier 1-hit entry,
+	// or Count/OrInto/Iterator would still describe that single hit
+	rv.docNum1Hit = 0
+	rv.normBits1Hit = 0
+
 	// read the location of the freq/norm details
 	var n uint64
 	var read int
